@@ -18,7 +18,7 @@
    C01_parameter_section_nonvacuous).  Remaining, validated but not proved: the 24 header fields, and the composition
    into load (save s). *)
 From Coq Require Import Lia ZifyN.
-From EZ Require Import Base Bytes Types Api Enc Dec Float32 Run Proofs_Bytes Proofs_Codec Proofs_Section Proofs_Record Proofs_Chain Proofs_ChainW Proofs_HeaderCodec Proofs_RoundTrip.
+From EZ Require Import Base Bytes Types Api Enc Dec Float32 Run Proofs_Bytes Proofs_Codec Proofs_Section Proofs_Record Proofs_Chain Proofs_ChainW Proofs_HeaderCodec Proofs_RoundTrip Proofs_Decide Run_Decide.
 Local Open Scope N_scope.
 
 (* the frames of a saved object come back bit for bit: the data section written by save is read by the
@@ -269,3 +269,19 @@ Proof.
   exact (load_save f_key_impl f_tosize_impl f_div_impl demo_state bytes sec 2 [[97]] [] Sv Hs Wh Wl Hok Hn Hg eq_refl eq_refl Wf demo_update_noop demo_data).
 Qed.
 Print Assumptions C01_load_save_nonvacuous.
+
+(* the hypotheses of C01_load_save as ONE computable predicate (Proofs_Decide.v: every well-formedness predicate reflected by
+   a boolean function, the header agreement computed): where it answers true the round trip holds.  The predicate is
+   extracted (ExtractX.v) and evaluated by the check on every object it saves: the evidence reports on how many of the
+   compared objects the theorem applies, and on those the implementation is compared with `reloaded`. *)
+Theorem C01_decided : forall s, ls_ok_x s = true ->
+  exists bytes blocks pn an, save_x s = Ok bytes /\ load_x bytes = Ok (reloaded s blocks pn an).
+Proof.
+  intros s H. destruct (ls_ok_load_save f_key_impl f_tosize_impl f_div_impl s H) as (bytes & blocks & pn & an & _ & Sv & Ld).
+  exists bytes, blocks, pn, an. split; [exact Sv|exact Ld].
+Qed.
+Print Assumptions C01_decided.
+
+Example C01_decided_nonvacuous : ls_ok_x demo_state = true.
+Proof. vm_compute. reflexivity. Qed.
+Print Assumptions C01_decided_nonvacuous.
